@@ -53,6 +53,7 @@ from ref import tlv
 from sim import tagsim, hostile, t2t
 
 PROP = 'C08'
+STRICT_LAYOUT = True
 ALPHA2 = (0x00, 0x01, 0x02, 0x03, 0x0E, 0x0F, 0x10, 0x7F, 0x80, 0xFD, 0xFE, 0xFF)
 ALPHA_WIDE = tuple(sorted(set(ALPHA2) | {
     0x04, 0x05, 0x06, 0x07, 0x08, 0x0C, 0x0D, 0x11, 0x12, 0x1F, 0x20, 0x21,
@@ -294,6 +295,38 @@ class Base(object):
             extra_files={b'\xE1\x05': OTHER_FILE}, **kw)
 
     # -- the independent model of "the tag's data area" ----------------------
+    def declared_value(self, img):
+        """The NDEF value as the image itself declares it, when the layout is
+        unambiguous by the Type 1/2 Tag specifications: capability container
+        valid, every control TLV well formed and pointing inside the
+        physical memory but not at a TLV header, the NDEF value inside the
+        data area.  Then the lock and reserved bytes are not part of the
+        data area and must not show up in the message.  None otherwise."""
+        m = img['mem']
+        if self.kind == 'T1':
+            cc, start, end = m[8:12], 12, (m[10] + 1) * 8
+            fixed = range(104, 128)
+        else:
+            cc, start, end = m[12:16], 16, 16 + m[14] * 8
+            fixed = ()
+        if cc[0] != 0xE1 or cc[1] >> 4 != 1 or end > len(m):
+            return None
+        lay = tlv.walk(m, start, end, fixed)
+        if lay.error is not None or not tlv.fits(lay.length, lay.avail):
+            return None
+        heads = set()
+        for (a, t, n) in lay.tlvs:
+            if t in (tlv.LOCK, tlv.MEM) and n != 3:
+                return None
+            heads.update(range(a, a + (1 if t == tlv.NULL else (
+                2 if n < 255 else 4))))
+            if t in (tlv.LOCK, tlv.MEM):
+                heads.update(range(a + 2, a + 5))
+        if (lay.tlv_reserved & heads) or any(
+                not start <= a < len(m) for a in lay.tlv_reserved):
+            return None
+        return lay.value(m)
+
     def area_bytes(self, img):
         """Bytes (in address order) of the data area that the image itself
         declares, cut to the memory the tag answers for.
@@ -680,6 +713,11 @@ def judge(base, img, o, content=True):
             if not is_subsequence(octets, area):
                 add('octets-outside-data-area', length=length, capacity=cap,
                     read=i, octets=octets[:80], area_len=len(area))
+            elif base.kind in ('T1', 'T2') and STRICT_LAYOUT:
+                want = base.declared_value(img)
+                if want is not None and octets != want:
+                    add('octets-include-reserved-bytes', length=length,
+                        read=i, octets=octets[:80], declared=want[:80])
     return out
 
 
